@@ -471,7 +471,11 @@ OnlyMasterSyntax(text) == OnlyMasterSyntaxL(text, Lex(text))
 
 TTLOctets(tok) == IF tok.q THEN Bad("ttl-quoted") ELSE DecOctets(tok.raw, 4)
 
-ReadRecordL(L, hk) ==                  \* L = Lex(text)
+(* TypeIs(_): what a type token denotes (-1: nothing); FixToks(_, _): the RDATA tokens of a record of   *)
+(* the given type as the reader takes them.  The reader of this module knows the IANA table and TYPEnnn *)
+(* (TypeOfRR) and takes the tokens as they stand; PresentReg.tla reads under a registry of private       *)
+(* mnemonics with the same operator.                                                                     *)
+ReadRecordWith(L, hk, TypeIs(_), FixToks(_, _)) ==      \* L = Lex(text)
   IF L.ill # "" THEN Bad("ill-formed-" \o L.ill)
   ELSE LET es == Entries(L.toks) IN
     IF Len(es) # 1 THEN Bad("not-one-entry")
@@ -484,16 +488,17 @@ ReadRecordL(L, hk) ==                  \* L = Lex(text)
             c3    == IF it[3].q THEN -1 ELSE ClassOf(it[3].raw)
             ttl   == IF c2 # -1 THEN TTLOctets(it[3]) ELSE TTLOctets(it[2])
             class == IF c2 # -1 THEN c2 ELSE c3
-            type  == IF it[4].q THEN -1 ELSE TypeOfRR(it[4].raw)
+            type  == IF it[4].q THEN -1 ELSE TypeIs(it[4].raw)
         IN
         IF ~own.ok THEN Bad("owner-" \o own.why)
         ELSE IF class = -1 THEN Bad("class")
         ELSE IF ~ttl.ok THEN Bad("ttl")
         ELSE IF type = -1 THEN Bad("unknown-type-mnemonic")
-        ELSE LET rd == ReadRdata(type, Sub(it, 5, Len(it)), hk) IN
+        ELSE LET rd == ReadRdata(type, FixToks(type, Sub(it, 5, Len(it))), hk) IN
              IF ~rd.ok THEN Bad("rdata-" \o rd.why)
              ELSE [ok |-> TRUE, name |-> own.v, type |-> type, class |-> class, ttl |-> ttl.v, alts |-> rd.alts,
                    amb |-> L.amb]
+ReadRecordL(L, hk) == ReadRecordWith(L, hk, TypeOfRR, LAMBDA t, toks : toks)
 ReadRecord(text, hk) == ReadRecordL(Lex(text), hk)
 
 -----------------------------------------------------------------------------
